@@ -4,7 +4,7 @@ from vlib import common, imggen, p_c16
 from vlib.common import hexs
 
 THEOREMS = ["C09_image", "C09_kernel_scalar", "C09_kernel_lane", "C09_kernel_bytes", "C09_lane_floor_refuted", "C09_length"]
-BRIDGES = ["BridgeDeblock"]
+BRIDGES = ["BridgeDeblock", "BridgeKDeblock"]
 
 
 def kernel_replay(ctx, line):
